@@ -285,14 +285,18 @@ func TestCheck(t *testing.T) {
 		for _, n := range sizes {
 			for rep := 0; rep < reps; rep++ {
 				shape, n, rep := shape, n, rep
-				if shape != "random" && rep >= 2 {
+				if shape != "random" && shape != "tree" && rep >= 2 {
 					continue // deterministic shapes need no repetition beyond the two entry points
+				}
+				if shape == "tree" && rep >= 24 {
+					continue
 				}
 				r.Case(fmt.Sprintf("graph/%s/n%d/%d", shape, n, rep), func(c *h.Case) { graphCase(c, shape, n, rep) })
 			}
 		}
 	}
 	soupCases(r)
+	typedSoupCases(r)
 }
 
 func graphCase(c *h.Case, shape string, n, rep int) {
@@ -349,7 +353,9 @@ func graphCase(c *h.Case, shape string, n, rep int) {
 	c.R.Stat("refs_resolved", int64(rd.NRefUse))
 	// (3) decode typed
 	ptr := reflect.New(reflect.TypeOf(top))
-	p, st = h.Try(func() { err = iox.Decode(append([]byte(nil), data...), ptr.Interface(), false, iox.Setting{}, rep%iox.NDec) })
+	p, st = h.Try(func() {
+		err = iox.Decode(append([]byte(nil), data...), ptr.Interface(), false, iox.Setting{}, rep%iox.NDec)
+	})
 	c.R.Eval(1)
 	if p != nil {
 		c.Violation("decode-panic:"+sig+":"+h.PanicClass(fmt.Sprint(p))+"@"+h.FirstRepoFrame(st), fmt.Sprintf("%v\nbytes=%s\n%s", p, h.Hex(clipb(data, 600)), h.TrimStack(st)), rep0)
@@ -369,6 +375,36 @@ func graphCase(c *h.Case, shape string, n, rep int) {
 		c.R.Stat("sharing_preserved", 1)
 	} else {
 		c.R.Stat("sharing_not_preserved", 1)
+	}
+	// decode a second, different graph into the same (now used) destination: the usual loop
+	// that decodes a stream of messages into one variable
+	shape2 := shapes[(int(c.Index)+rep+3)%len(shapes)]
+	root2, nodes2 := genGraph(rng, 1+(n+rep)%7, shape2)
+	var top2 interface{} = root2
+	switch rep % 4 {
+	case 1:
+		top2 = []*G{root2, nodes2[len(nodes2)-1], root2}
+	case 2:
+		top2 = map[string]*G{"root": root2, "again": root2}
+	case 3:
+		top2 = &gentypes.H{N: 1, G: root2, Any: []interface{}{root2, nodes2[len(nodes2)/2]}}
+	}
+	// Only after a tree: like encoding/json the decoder fills existing pointees in place, so a
+	// destination whose old contents share or cycle merges the new values through the old
+	// aliases; that is outside the property's domain and fails on the unchanged tree.
+	if data2, err2 := iox.Encode(top2, false, iox.EncMarshal); err2 == nil && shape == "tree" {
+		p, st = h.Try(func() {
+			err = iox.Decode(append([]byte(nil), data2...), ptr.Interface(), false, iox.Setting{}, iox.DecFresh)
+		})
+		c.R.Eval(1)
+		rep2 := map[string]interface{}{"shape_first": shape, "n_first": n, "shape_second": shape2, "rep": rep, "bytes_second": h.Hex(clipb(data2, 1200))}
+		if p != nil {
+			c.Violation("decode-panic-reused-destination:"+h.PanicClass(fmt.Sprint(p))+"@"+h.FirstRepoFrame(st), fmt.Sprintf("%v\n%s", p, h.TrimStack(st)), rep2)
+		} else if err != nil {
+			c.Violation("decode-error-reused-destination:"+shape2, err.Error(), rep2)
+		} else if why := eqv.Equal(reflect.ValueOf(top2), ptr.Elem()); why != "" {
+			c.Violation("graph-mismatch-reused-destination:"+shape+"-then-"+shape2, fmt.Sprintf("a %s graph decoded into a destination that already held a %s graph differs at %s\nbytes=%s", shape2, shape, why, h.Hex(clipb(data2, 800))), rep2)
+		}
 	}
 	// decode into interface{} under a random setting
 	s := iox.RandSetting(rng)
@@ -587,6 +623,114 @@ func runSoup(c *h.Case, name string, seq []interface{}, noDecode bool) {
 	p, st = h.Try(func() { dec.Decode(&back) })
 	if p == nil && dec.Error == nil && len(back) != len(seq) {
 		c.Violation("soup-length:"+name, fmt.Sprintf("decoded %d items, wrote %d", len(back), len(seq)), rep)
+	}
+}
+
+// typedSoup: every referable kind in a typed position between a definition and a
+// back-reference, decoded into a typed destination (an anonymous struct built with reflect).
+func typedSoupCases(r *h.Run) {
+	tm := time.Date(2021, 3, 4, 5, 6, 7, 0, time.UTC)
+	u := uuid.MustParse("550e8400-e29b-41d4-a716-446655440000")
+	l := list.New()
+	l.PushBack("in-list")
+	l.PushBack("probe-string")
+	one := 3
+	items := []interface{}{
+		"two or more units", "😀", "x", "", "\xff\xfe", []byte("bytes"), []byte{}, []byte(nil),
+		tm, &tm, time.Date(2021, 3, 4, 0, 0, 0, 0, time.UTC), time.Date(1970, 1, 1, 1, 2, 3, 0, time.UTC), u, &u, l,
+		map[string]int{"a": 1}, map[string]int{}, map[string]int(nil), map[interface{}]interface{}{"probe-string": "probe-string"},
+		[]int{1, 2}, []int{}, []int(nil), []string{"probe-string", "aa", "aa"}, []interface{}{"probe-string", 1, nil},
+		[2]int{1, 2}, [0]int{}, [3]byte{1, 2, 3}, &[2]string{"aa", "probe-string"}, [1]*int{&one},
+		[][]int{{1}, nil, {}}, [][]byte{[]byte("a"), nil, {}}, [][]string{{"aa", "aa"}, nil}, [][]float64{{1.5}, {}}, [][]interface{}{{"aa"}, nil, {"aa", "probe-string"}}, [][]bool{{true}},
+		&gentypes.Scalars{S: "probe-string", I: 1}, gentypes.One{A: 1}, &gentypes.OnePtr{P: &one}, gentypes.OnePtr{P: &one}, &gentypes.Nested{OneP: &gentypes.One{A: 2}}, &gentypes.Empty{}, gentypes.Empty{},
+		&gentypes.Embeds{Inner: gentypes.Inner{IB: "probe-string"}, Name: "probe-string"}, gentypes.EmbedsLate{Name: "probe-string"},
+		struct {
+			A int
+			S string
+		}{1, "probe-string"}, &struct{ S string }{"probe-string"}, struct{}{},
+		big.NewRat(1, 3), *big.NewRat(1, 3), big.NewRat(4, 1), big.NewInt(1 << 40), *big.NewInt(5), big.NewFloat(1.5), *big.NewFloat(2.5),
+		complex(1, 2), complex(1, 0), complex64(complex(0, 1)), 12345, 1.5, true, &one, strp("probe-string"),
+		gentypes.MyBytes("nb"), gentypes.MyIntSlice{1, 2}, gentypes.MyStrMap{"k": 1}, gentypes.MyString("named string"),
+		&gentypes.Tree{Name: "probe-string", Kids: []*gentypes.Tree{{Name: "kid"}}},
+	}
+	tOne := reflect.TypeOf((*gentypes.One)(nil))
+	tStr := reflect.TypeOf("")
+	for i, it := range items {
+		i, it := i, it
+		r.Case(fmt.Sprintf("typed-soup/%d/%T", i, it), func(c *h.Case) {
+			t := reflect.TypeOf(it)
+			st := reflect.StructOf([]reflect.StructField{
+				{Name: "P1", Type: tStr}, {Name: "O1", Type: tOne}, {Name: "It", Type: t}, {Name: "P2", Type: tStr}, {Name: "O2", Type: tOne}, {Name: "It2", Type: t}, {Name: "P3", Type: tStr}, {Name: "O3", Type: tOne},
+			})
+			shared := &gentypes.One{A: 9}
+			v := reflect.New(st).Elem()
+			v.Field(0).SetString("probe-string")
+			v.Field(1).Set(reflect.ValueOf(shared))
+			v.Field(2).Set(reflect.ValueOf(it))
+			v.Field(3).SetString("probe-string")
+			v.Field(4).Set(reflect.ValueOf(shared))
+			v.Field(5).Set(reflect.ValueOf(it))
+			v.Field(6).SetString("probe-string")
+			v.Field(7).Set(reflect.ValueOf(shared))
+			for variant := 0; variant < 3; variant++ {
+				var top reflect.Value
+				switch variant {
+				case 0:
+					top = v
+				case 1: // as slice elements of the struct type
+					top = reflect.MakeSlice(reflect.SliceOf(st), 2, 2)
+					top.Index(0).Set(v)
+					top.Index(1).Set(v)
+				case 2: // behind a pointer inside a map
+					top = reflect.MakeMap(reflect.MapOf(tStr, reflect.PtrTo(st)))
+					pv := reflect.New(st)
+					pv.Elem().Set(v)
+					top.SetMapIndex(reflect.ValueOf("k"), pv)
+				}
+				name := fmt.Sprintf("%T", it)
+				var data []byte
+				var err error
+				p, stk := h.Try(func() { data, err = iox.Encode(top.Interface(), false, iox.EncMarshal) })
+				c.R.Eval(1)
+				rep := map[string]interface{}{"item": fmt.Sprintf("%#v", it), "variant": variant}
+				if p != nil {
+					c.Violation("typed-soup-encode-panic:"+name+":"+h.PanicClass(fmt.Sprint(p))+"@"+h.FirstRepoFrame(stk), fmt.Sprintf("%v\n%s", p, h.TrimStack(stk)), rep)
+					continue
+				}
+				if err != nil {
+					c.Violation("typed-soup-encode-error:"+name, err.Error(), rep)
+					continue
+				}
+				rep["bytes"] = h.Hex(clipb(data, 1200))
+				got, rd, perr := hpref.Parse(data)
+				if perr != nil {
+					c.Violation("typed-soup-malformed:"+name, fmt.Sprintf("%v\nbytes=%s", perr, h.Hex(clipb(data, 800))), rep)
+					continue
+				}
+				if why := eqv.DEqual(eqv.DenoteValue(top), got); why != "" {
+					c.Violation("typed-soup-wrong-reference:"+name, fmt.Sprintf("read independently the stream denotes something else: %s\nbytes=%s", why, h.Hex(clipb(data, 800))), rep)
+				}
+				c.R.Stat("refs_resolved", int64(rd.NRefUse))
+				for entry := 0; entry < iox.NDec; entry++ {
+					ptr := reflect.New(top.Type())
+					p, stk = h.Try(func() { err = iox.Decode(append([]byte(nil), data...), ptr.Interface(), false, iox.Setting{}, entry) })
+					c.R.Eval(1)
+					if p != nil {
+						c.Violation("typed-soup-decode-panic:"+name+":"+h.PanicClass(fmt.Sprint(p))+"@"+h.FirstRepoFrame(stk), fmt.Sprintf("%v\nbytes=%s\n%s", p, h.Hex(clipb(data, 600)), h.TrimStack(stk)), rep)
+						break
+					}
+					if err != nil {
+						c.Violation("typed-soup-decode-error:"+name, fmt.Sprintf("%v\nbytes=%s", err, h.Hex(clipb(data, 800))), rep)
+						break
+					}
+					if why := eqv.Equal(top, ptr.Elem()); why != "" {
+						c.Violation("typed-soup-mismatch:"+name, fmt.Sprintf("typed decode differs at %s\nbytes=%s", why, h.Hex(clipb(data, 800))), rep)
+						break
+					}
+				}
+				c.R.Distinct(fmt.Sprintf("typed-soup|%d|%d", i, variant))
+			}
+		})
 	}
 }
 
